@@ -1740,7 +1740,7 @@ impl SocketAddress for SocketAddrV6 {
 
 impl SocketAddress for unix::net::SocketAddr {
     #[doc(hidden)] // Not part of stable API.
-    type Storage = libc::sockaddr_un;
+    type Storage = (libc::sockaddr_un, libc::socklen_t); // Address and its length.
 
     fn into_storage(self) -> Self::Storage {
         let mut storage = libc::sockaddr_un {
@@ -1758,38 +1758,48 @@ impl SocketAddress for unix::net::SocketAddr {
                 storage.sun_path.len(),
             )
         };
+        // The length of the address depends on the kind of address: unlike
+        // pathname addresses, which end at the first null byte, all bytes
+        // of an abstract name (up to the length) are significant and an unnamed
+        // address only consists of the family.
+        let mut length = mem::offset_of!(libc::sockaddr_un, sun_path);
         if let Some(pathname) = self.as_pathname() {
             let bytes = pathname.as_os_str().as_bytes();
             path[..bytes.len()].copy_from_slice(bytes);
+            length += bytes.len() + 1; // Including the terminating null byte.
         } else {
             #[cfg(any(target_os = "android", target_os = "linux"))]
             if let Some(bytes) = self.as_abstract_name() {
                 path[1..][..bytes.len()].copy_from_slice(bytes);
+                length += 1 + bytes.len();
             }
 
             // Unnamed address, we'll leave it all zero.
         }
-        storage
+        (storage, length as libc::socklen_t)
     }
 
     unsafe fn as_ptr(storage: &Self::Storage) -> (*const c_void, u32) {
-        let ptr = ptr::from_ref(storage).cast();
-        (ptr, size_of::<Self::Storage>() as u32)
+        let ptr = ptr::from_ref(&storage.0).cast();
+        (ptr, storage.1)
     }
 
     unsafe fn as_mut_ptr(storage: &mut MaybeUninit<Self::Storage>) -> (*mut c_void, u32) {
         (
-            storage.as_mut_ptr().cast(),
-            size_of::<Self::Storage>() as u32,
+            // SAFETY: only creating a pointer to the address.
+            unsafe { (&raw mut (*storage.as_mut_ptr()).0).cast() },
+            size_of::<libc::sockaddr_un>() as u32,
         )
     }
 
     unsafe fn init(storage: MaybeUninit<Self::Storage>, length: u32) -> Self {
         debug_assert!(length as usize >= size_of::<libc::sa_family_t>());
-        let family = unsafe { ptr::addr_of!((*storage.as_ptr()).sun_family).read() };
+        // SAFETY: only creating a pointer to the address.
+        let storage = unsafe { &raw const (*storage.as_ptr()).0 };
+        let family = unsafe { ptr::addr_of!((*storage).sun_family).read() };
         debug_assert!(family == libc::AF_UNIX as libc::sa_family_t);
-        let path_ptr = unsafe { ptr::addr_of!((*storage.as_ptr()).sun_path) };
-        let length = length as usize - (path_ptr.addr() - storage.as_ptr().addr());
+        let path_ptr = unsafe { ptr::addr_of!((*storage).sun_path) };
+        let length = length as usize - (path_ptr.addr() - storage.addr());
         // SAFETY: the kernel ensures that at least `length` bytes are
         // initialised.
         let path = unsafe { slice::from_raw_parts::<u8>(path_ptr.cast(), length) };
